@@ -105,7 +105,7 @@ impl Prop for C11 {
         CaseReport { nontrivial, classes, viol }
     }
     fn cases(tier: Tier) -> u64 {
-        scale(tier, 240_000, 6_000_000)
+        scale(tier, 600_000, 6_000_000)
     }
     fn rule() -> &'static str {
         "one generated config + history (all alloc flavours, drop/detach/dealloc, discard_freelist, set_minimum_segment_size, increase_discarded, rewind, clear; Vec/anon/file) run on sync::Arena and on unsync::Arena; after every step the observation tuples (result kind, offset, capacity, buffer extent, allocated, discarded, remaining, capacity, min segment, refs, free-list snapshot) must be equal; a panic or oracle failure on one side only is a violation. Non-trivial = the history contains a slow-path allocation and a remainder split"
@@ -453,7 +453,7 @@ impl Prop for C16 {
         r
     }
     fn cases(tier: Tier) -> u64 {
-        scale(tier, 160_000, 3_000_000)
+        scale(tier, 400_000, 3_000_000)
     }
     fn rule() -> &'static str {
         "constructor cases: reserved 0..=4096, capacity = prefix + delta (delta -40..3000, dense at -3..=3), unify on/off, Vec/anon/file, both flavours: construction succeeds iff capacity >= Options::data_offset / data_offset_unify (the API's own functions are the reference) and fails with InsufficientSpace (Vec) / InvalidInput (maps); data_offset(), first allocation offset, reserved_slice length, remaining law and the descriptive accessor table match the constructor used (the accessor table, data_offset() and the remaining law are re-checked after every step of every history for every live arena value - clones and reopened files included). Then one generated history is run with unify=true on Vec, anon and file arenas: observation tuples and a hash of memory() equal after every step, final memory() equal. Reserved prefix pattern checked after every step. Non-trivial = reserved not a multiple of 8 or capacity within +-1 of the prefix"
